@@ -217,11 +217,8 @@ theorem lockedClear_foldl_runPend (cfg : Cfg) (hf13 : cfg.f13 = true) (ps : List
   | nil => exact h
   | cons p ps ih =>
     simp only [List.foldl]
-    exact ih _ (fun q hq => (hk q (List.mem_cons_of_mem _ hq)).ext (wExt_runPend cfg m p))
+    exact ih _ (fun q hq => (hk q (List.mem_cons_of_mem _ hq)).ext (wExt_runPend cfg m p (hk p List.mem_cons_self)))
       (lockedClear_runPend cfg hf13 m p (hk p List.mem_cons_self) h)
-
-theorem pendKind_foldl_runPend (cfg : Cfg) (ps : List Pend) (m : Mem) : WExt m (ps.foldl (runPend cfg) m) :=
-  wExt_foldl ps m (runPend cfg) (wExt_runPend cfg)
 
 /-! ### every operation, every history -/
 
@@ -233,7 +230,7 @@ structure WFlags (cfg : Cfg) : Prop where
   f13 : cfg.f13 = true
 
 structure StW (s : State) : Prop where
-  mem  : ∀ m, s.mem = some m → LockedClear m ∧ ∀ p ∈ s.pend, PendKind m p
+  mem  : ∀ m, s.mem = some m → LockedClear m ∧ LastKind m ∧ ∀ p ∈ s.pend, PendKind m p
   pend : s.snap = none → s.pend = []
 
 theorem lockedClear_exec (s : State) (hf : WFlags s.cfg) (m : Mem) (hs : s.mem = some m) (op : Op) (h : LockedClear m)
@@ -253,10 +250,10 @@ theorem lockedClear_exec (s : State) (hf : WFlags s.cfg) (m : Mem) (hs : s.mem =
     case convertWO => cases hm; exact lockedClear_convertWO _ hf.f1 hf.f11 _ _ h
 
 theorem stW_exec (s : State) (hf : WFlags s.cfg) (m : Mem) (hs : s.mem = some m) (op : Op) (hd : LockedClear m)
-    (hp : ∀ p ∈ s.pend, PendKind m p) (m' : Mem) (h : (exec s m op).1.mem = some m') :
-    LockedClear m' ∧ ∀ p ∈ (exec s m op).1.pend, PendKind m' p := by
+    (hlk : LastKind m) (hp : ∀ p ∈ s.pend, PendKind m p) (m' : Mem) (h : (exec s m op).1.mem = some m') :
+    LockedClear m' ∧ LastKind m' ∧ ∀ p ∈ (exec s m op).1.pend, PendKind m' p := by
   have he := exec_mem_wExt s m hs op m' h
-  refine ⟨lockedClear_exec s hf m hs op hd m' h, ?_⟩
+  refine ⟨lockedClear_exec s hf m hs op hd m' h, he.last hlk, ?_⟩
   by_cases hn : ∃ sc a n i, op = .next sc a n i
   · obtain ⟨sc, a, n, i, rfl⟩ := hn
     intro p hpp
@@ -273,6 +270,19 @@ theorem keyClear_openMem (d : Disk) : KeyClear (openMem d) := by
   · intro sc _ p hp; simp [openMem] at hp
   · intro sc _ p hp; simp [openMem] at hp
 
+theorem lastKind_openMem (d : Disk) : LastKind (openMem d) := by
+  intro sc p hp; simp [openMem] at hp
+
+/-- the buffer map of a locked manager as the hook reports it: `KeyClear`, and the clear-text key of BOTH cached
+last-address objects of every cached account is nil (they are `*managedAddress` objects: `LastKind`) -/
+structure BufClear (m : Mem) : Prop where
+  key    : KeyClear m
+  lastCT : ∀ sc, sc < nScopes → ∀ p ∈ (m.scopes sc).acctInfo,
+             (m.heap p.2.lastExt).ct = false ∧ (m.heap p.2.lastInt).ct = false
+
+theorem bufClear_of {m : Mem} (hk : KeyClear m) (hl : LastKind m) : BufClear m :=
+  ⟨hk, fun sc hsc p hp => ⟨(hk.last sc hsc p hp).1 (hl sc p hp).1.2, (hk.last sc hsc p hp).2 (hl sc p hp).2.2⟩⟩
+
 theorem stW_commitTx (s : State) (hf : WFlags s.cfg) (h : StW s) : StW (commitTx s) := by
   refine ⟨?_, fun _ => rfl⟩
   intro m hm
@@ -281,13 +291,14 @@ theorem stW_commitTx (s : State) (hf : WFlags s.cfg) (h : StW s) : StW (commitTx
   | none => rw [hs] at hm; cases hm
   | some m0 =>
     rw [hs] at hm; simp only [Option.map] at hm; cases hm
-    obtain ⟨h1, h2⟩ := h.mem m0 hs
-    exact ⟨lockedClear_foldl_runPend _ hf.f13 _ _ h2 h1, fun p hp => by simp [commitTx] at hp⟩
+    obtain ⟨h1, hk, h2⟩ := h.mem m0 hs
+    exact ⟨lockedClear_foldl_runPend _ hf.f13 _ _ h2 h1, (wExt_foldl_runPend _ _ _ h2).last hk,
+      fun p hp => by simp [commitTx] at hp⟩
 
 theorem stW_rollbackTx (s : State) (h : StW s) : StW (rollbackTx s) := by
   refine ⟨?_, fun _ => rfl⟩
   intro m hm
-  exact ⟨(h.mem m hm).1, fun p hp => by simp [rollbackTx] at hp⟩
+  exact ⟨(h.mem m hm).1, (h.mem m hm).2.1, fun p hp => by simp [rollbackTx] at hp⟩
 
 theorem stW_step (s : State) (hf : WFlags s.cfg) (op : Op) (h : StW s) : StW (step s op).1 := by
   have generic : ∀ m, s.mem = some m →
@@ -296,10 +307,10 @@ theorem stW_step (s : State) (hf : WFlags s.cfg) (op : Op) (h : StW s) : StW (st
           let r := exec { s with snap := some s.disk, pend := [] } m op
           if isErr r.2 then (rollbackTx r.1, r.2) else (commitTx r.1, r.2)).1 := by
     intro m hs
-    obtain ⟨hd, hp⟩ := h.mem m hs
+    obtain ⟨hd, hlk, hp⟩ := h.mem m hs
     split
     · rename_i hc
-      refine ⟨fun m' hm' => stW_exec s hf m hs op hd hp m' hm', ?_⟩
+      refine ⟨fun m' hm' => stW_exec s hf m hs op hd hlk hp m' hm', ?_⟩
       intro hsn
       rw [exec_snap_same] at hsn
       have hw : op.writes = false := by simpa [hsn] using hc
@@ -307,7 +318,7 @@ theorem stW_step (s : State) (hf : WFlags s.cfg) (op : Op) (h : StW s) : StW (st
     · dsimp only
       have hex : StW (exec { s with snap := some s.disk, pend := [] } m op).1 := by
         refine ⟨fun m' hm' => ?_, ?_⟩
-        · exact stW_exec { s with snap := some s.disk, pend := [] } hf m hs op hd (fun p hp => by simp at hp) m' hm'
+        · exact stW_exec { s with snap := some s.disk, pend := [] } hf m hs op hd hlk (fun p hp => by simp at hp) m' hm'
         · intro hsn; rw [exec_snap_same] at hsn; cases hsn
       split
       · exact stW_rollbackTx _ hex
@@ -323,7 +334,7 @@ theorem stW_step (s : State) (hf : WFlags s.cfg) (op : Op) (h : StW s) : StW (st
         have hsn' : s.snap = none := by cases hx : s.snap <;> simp_all
         refine ⟨?_, fun _ => h.pend hsn'⟩
         intro m hm; simp only at hm; cases hm
-        exact ⟨fun _ => keyClear_openMem _, fun p hp => by rw [h.pend hsn'] at hp; simp at hp⟩
+        exact ⟨fun _ => keyClear_openMem _, lastKind_openMem _, fun p hp => by rw [h.pend hsn'] at hp; simp at hp⟩
   case reopen =>
     simp only []; split
     · exact h
@@ -335,11 +346,11 @@ theorem stW_step (s : State) (hf : WFlags s.cfg) (op : Op) (h : StW s) : StW (st
         · exact ⟨fun m hm => (by cases hm), fun _ => h.pend hsn'⟩
         · refine ⟨?_, fun _ => h.pend hsn'⟩
           intro m hm; simp only at hm; cases hm
-          exact ⟨fun _ => keyClear_openMem _, fun p hp => by rw [h.pend hsn'] at hp; simp at hp⟩
+          exact ⟨fun _ => keyClear_openMem _, lastKind_openMem _, fun p hp => by rw [h.pend hsn'] at hp; simp at hp⟩
   case begin =>
     simp only []; split
     · exact h
-    · exact ⟨fun m hm => ⟨(h.mem m hm).1, fun p hp => by simp at hp⟩, fun _ => rfl⟩
+    · exact ⟨fun m hm => ⟨(h.mem m hm).1, (h.mem m hm).2.1, fun p hp => by simp at hp⟩, fun _ => rfl⟩
   case commit => simp only []; split; exact h; exact stW_commitTx _ hf h
   case rollback => simp only []; split; exact h; exact stW_rollbackTx _ h
   all_goals
